@@ -903,6 +903,11 @@ def src_flows(e: ast.AST, src: str, env: dict[str, ast.expr], info: Optional['Cl
                                                                  or ast.unparse(e.values[1]) in ('set()', '()', '[]', '{}')):
             go(e.values[0], worse('ordefault'))       # `x or default`: x itself, when truthy
             return out
+        if isinstance(e.op, ast.And) and len(e.values) == 2 and isinstance(e.values[0], (ast.Name, ast.Attribute)):
+            # `x and B` is `B if x else x`
+            add(src_flows(ast.copy_location(ast.IfExp(test=e.values[0], body=e.values[1], orelse=e.values[0]), e),
+                          src, env, info, classes, mode, _depth + 1))
+            return out
         if isinstance(e.op, ast.And):
             for x in e.values:
                 go(x, worse('derived'))                # `a and b`: one of the two, depending on the other
